@@ -76,7 +76,9 @@ func ParseProgram(fsys fs.FS) (*ast.Tree, error) {
 			if tree, ok := trees[imp.Path]; ok {
 				// Check if there is a cycle.
 				for i, p := range imports {
-					if p.Path == imp.Path {
+					// The packages in imports that have not been parsed yet
+					// are not importing the current package.
+					if p.Path == imp.Path && p.Tree != nil {
 						// There is a cycle.
 						err := &CycleError{
 							path: p.Path,
